@@ -163,6 +163,24 @@ func VerifC11_RoundTrip() {
 		"KF-C11-reason-duplicated-for-nested-target", nested)
 }
 
+// VerifC11_MessagesWithPercent: a message is data, not a format: messages that
+// contain '%' (a progress figure, a URL-encoded path, a stray verb) come out of
+// every constructor as given and survive the round trip.
+func VerifC11_MessagesWithPercent() {
+	msgs := []string{"100% full", "%", "50%d", "a%20b", "%v", "done 100%", "%!s(MISSING)"}
+	msg := msgs[verif.Choice("percentMessage", len(msgs))]
+	kind := vKinds[verif.Choice("kind", len(vKinds))]
+	e := vBuild(kind, msg)
+	verif.Assert("kind_recognised", Any(e, kind))
+	verif.Assert("message_is_kept_as_given", strings.Contains(e.Error(), msg))
+	text, err := SerialiseError(e)
+	verif.Assert("serialise_ok", err == nil)
+	d, err := DeserialiseError(text)
+	verif.Assert("deserialise_ok", err == nil && d != nil)
+	verif.Assert("roundtrip_kind", Any(d, kind))
+	verif.Assert("roundtrip_reason", vReason(d.Error()) == vReason(e.Error()))
+}
+
 // VerifC11_RoundTripMultiLine: messages may contain newlines (kind clause only).
 func VerifC11_RoundTripMultiLine() {
 	k := verif.Choice("kind", len(vKinds))
